@@ -17,7 +17,7 @@ PROPERTY = 'C17'
 LEVEL = 'fault_enumeration'
 RULE = ('programs {finite facts, deep structural recursion over lists and Peano numbers, left recursion, mutual recursion, '
         'infinitely many answers of growing depth, answers before a deep branch, findall/once around recursion} x EVERY '
-        'recursion limit of a contiguous range (quick 60..140, thorough 60..460) plus selected limits up to 1000, so the '
+        'recursion limit of a contiguous range (quick 60..140, thorough 60..700) plus selected limits up to 1000, so the '
         'strike point sweeps over every kind of frame x projection functions raising at answer k (k<=6) with a custom '
         'exception / RuntimeError / StopIteration / KeyboardInterrupt / not at all x generator passed inline or also held '
         'by the caller and closed afterwards. Each case runs in its own forked child (the limit is process-global). '
@@ -144,8 +144,8 @@ FAULTS = [None] + [(k, e) for k in (1, 2, 3, 6) for e in ('Custom', 'RuntimeErro
 
 
 def limits(tier):
-    hi = 140 if tier == 'quick' else 460
-    return list(range(60, hi + 1)) + [400, 450, 500, 600, 700, 800, 900, 1000]
+    hi = 140 if tier == 'quick' else 700
+    return list(range(60, hi + 1)) + [x for x in (400, 450, 500, 600, 700, 800, 900, 1000) if x > hi]
 
 
 BLOCK = 12
